@@ -8,6 +8,7 @@ import (
 	"sort"
 	"strings"
 	"sync"
+	"sync/atomic"
 	"time"
 
 	"verif/internal/scen"
@@ -173,6 +174,7 @@ func RunCheck(p Property, opt Options) int {
 	}
 
 	type job struct{ from, to int }
+	var illFormed int64
 	jobs := make(chan job, 64)
 	outs := make(chan episodeOut, 256)
 	var wg sync.WaitGroup
@@ -191,7 +193,15 @@ func RunCheck(p Property, opt Options) int {
 					if i >= plan.Episodes {
 						gi = -(i - plan.Episodes + 1) // race-world episodes are numbered -1, -2, ...
 					}
-					scs = append(scs, p.Gen(opt.Seed, gi, opt.Tier))
+					sc := p.Gen(opt.Seed, gi, opt.Tier)
+					if wf, ok := p.(interface{ WellFormed(*scen.Scenario) bool }); ok && !wf.WellFormed(sc) {
+						// the well-formedness guard of the minimiser must accept everything the generator makes,
+						// otherwise a real violation would be dropped as not reproducible
+						if atomic.AddInt64(&illFormed, 1) == 1 {
+							logf("HARNESS-TROUBLE property=%s: generated episode %d is rejected by the property's own WellFormed guard", p.ID(), gi)
+						}
+					}
+					scs = append(scs, sc)
 				}
 				to := 30 * time.Second
 				if len(scs) > 1 {
@@ -333,6 +343,10 @@ func RunCheck(p Property, opt Options) int {
 	}
 	if notRepro > 0 && exit == 0 {
 		exit = 2 // nothing replayable was found, but something was seen that does not replay: simulator trouble
+	}
+	if n := atomic.LoadInt64(&illFormed); n > 0 && exit == 0 {
+		logf("HARNESS-TROUBLE: %d generated episodes are not well-formed by the property's own guard", n)
+		exit = 2
 	}
 	if inconclusive > 0 && exit == 0 {
 		logf("INCONCLUSIVE: %d episodes ended abnormally (budget/timeout/harness)", inconclusive)
